@@ -295,6 +295,13 @@ func enumerate(s seedFile, rng *rand.Rand, quick bool, emit func(testCase)) {
 	}
 	for _, dec := range s.decoders {
 		emit(testCase{dec, modePlain, 0, s.data, s.name + "/valid"})
+		if s.text {
+			emit(testCase{dec, modePlain, 0, bytes.Replace(s.data, []byte("\n"), []byte("\r"), -1), s.name + "/line-ends=CR"})
+			emit(testCase{dec, modePlain, 0, bytes.Replace(s.data, []byte("\n"), []byte("\r\n"), -1), s.name + "/line-ends=CRLF"})
+			if n := bytes.Count(s.data, []byte("\n")); n > 1 {
+				emit(testCase{dec, modePlain, 0, bytes.Replace(s.data, []byte("\n"), []byte("\r"), n/2), s.name + "/line-ends=CR-then-LF"})
+			}
+		}
 		emit(testCase{dec, modeOneByte, 0, s.data, s.name + "/valid-1byte-reads"})
 		// every truncation point
 		step := 1
@@ -466,6 +473,21 @@ func handWritten() []testCase {
 	add(csv, "csv-quote", "\"1,2,3,4\n")
 	add(csv, "csv-nan", "nan,inf,-inf,1e999\n")
 	add(csv, "csv-empty-lines", "\n\n\n")
+	// other line-terminator dialects: bare CR (old Mac), CRLF, mixed, with and without a final one
+	for _, rows := range []int{1, 2, 3, 7, 40} {
+		var lf string
+		for i := 0; i < rows; i++ {
+			lf += fmt.Sprintf("%d,%d.5,%d,-%d\n", i, i, i+1, i)
+		}
+		cr := strings.Replace(lf, "\n", "\r", -1)
+		crlf := strings.Replace(lf, "\n", "\r\n", -1)
+		add(csv, fmt.Sprintf("csv-bare-cr-%d", rows), cr)
+		add(csv, fmt.Sprintf("csv-bare-cr-nofinal-%d", rows), strings.TrimSuffix(cr, "\r"))
+		add(csv, fmt.Sprintf("csv-bare-cr-final-lf-%d", rows), strings.TrimSuffix(cr, "\r")+"\n")
+		add(csv, fmt.Sprintf("csv-crlf-%d", rows), crlf)
+		add(csv, fmt.Sprintf("csv-lfcr-%d", rows), strings.Replace(lf, "\n", "\n\r", -1))
+		add(csv, fmt.Sprintf("csv-mixed-%d", rows), strings.Replace(lf, "\n", "\r", rows/2)+"\r\r")
+	}
 	return res
 }
 
